@@ -794,6 +794,15 @@ class Evaluator:
         if r is not None:
             return r
         it = self.ev(st.iter, live)
+        # a loop over a display of known elements is the sequence of its iterations (table-driven code)
+        if it[0] in ("tuple", "list") and 0 < len(it[1]) <= 32 and not any(x[0] == "star" for x in it[1]) and not st.orelse \
+                and not any(isinstance(n_, (ast.Break, ast.Continue)) for b_ in st.body for n_ in ast.walk(b_)):
+            for item in it[1]:
+                if live == FALSE:
+                    break
+                self.assign(st.target, item, live, st)
+                live = self.block(st.body, live)
+            return live
         # for x in takewhile(p, xs): ...  is  for x in xs: if not p(x): break; ...
         preds = []
         while it[0] == "call" and it[1] == ("ext", "itertools.takewhile") and len(it[2]) == 2 and not it[3]:
